@@ -23,6 +23,12 @@ pub struct FsCfg {
     /// io latency (min, max) in microseconds; None = instant
     pub latency_us: Option<(u64, u64)>,
     pub page_cache: bool,
+    /// torn-write block size (0 = not configured)
+    #[serde(default)]
+    pub block_size: u64,
+    /// page cache random eviction probability, per mille (page cache on only)
+    #[serde(default)]
+    pub evict_pm: u32,
 }
 
 #[derive(Clone, Debug, Serialize, Deserialize)]
@@ -242,6 +248,12 @@ async fn fs_worker(log: SharedLog, me: usize, inc: u32, files: u32, ring_ops: u3
         if let Ok(rd) = sfs::read_dir(&d) {
             let names: Vec<String> = rd.filter_map(|e| e.ok()).map(|e| e.file_name().to_string_lossy().to_string()).collect();
             log.ev(format!("n{me}.{inc} start: read_dir {d} -> {:?}", names));
+            // ... and what the files hold (after a crash: whatever the torn-write lottery left of unsynced writes)
+            for n in names.iter().take(12) {
+                if let Ok(b) = sfs::read(format!("{d}/{n}")) {
+                    log.ev(format!("n{me}.{inc} start: {d}/{n} holds {} bytes {:?}", b.len(), &b[..b.len().min(10)]));
+                }
+            }
         }
     }
     let _ = sfs::create_dir_all(format!("{dir}/tmp"));
@@ -304,6 +316,11 @@ async fn fs_worker(log: SharedLog, me: usize, inc: u32, files: u32, ring_ops: u3
         let w = tfs::write(&p0, b"tokio-shim-data").await;
         let rd = tfs::read(&p0).await;
         log.ev(format!("n{me}.{inc} r{r} tokio write {:?} read {:?} at {}us", w.map_err(|e| e.kind()), rd.map_err(|e| e.kind()), us(turmoil::elapsed())));
+        // the same (cached, unless evicted) page again and again: every completion instant is part of the trace
+        for k in 0..4 {
+            let x = tfs::read(&p0).await.map(|b| b.len());
+            log.ev(format!("n{me}.{inc} r{r} tokio re-read #{k} -> {:?} at {}us", x.map_err(|e| e.kind()), us(turmoil::elapsed())));
+        }
         // positional reads through the std shim (io_error / short_read knobs show up here)
         if let Ok(h) = sfs::File::open(&p0) {
             use std::os::unix::fs::FileExt;
@@ -411,7 +428,13 @@ fn execute_with(sc: &Scenario, keep: bool, stall: bool) -> (Vec<String>, u64, Op
                     f.io_latency().min_latency(Duration::from_micros(lo)).max_latency(Duration::from_micros(hi));
                 }
                 if sc.fs.page_cache {
-                    f.page_cache();
+                    let pc = f.page_cache();
+                    if sc.fs.evict_pm > 0 {
+                        pc.random_eviction_probability(sc.fs.evict_pm as f64 / 1000.0).max_pages(4);
+                    }
+                }
+                if sc.fs.block_size > 0 {
+                    f.block_size(sc.fs.block_size);
                 }
             }
             let mut sim = b.build();
@@ -613,6 +636,8 @@ fn gen_scenario(rng: &mut Rng) -> Scenario {
         short_read_pct: *rng.pick(&[0u32, 0, 50]),
         latency_us: if rng.chance(1, 3) { Some((rng.range(10, 500), rng.range(500, 4000))) } else { None },
         page_cache: rng.chance(1, 4),
+        block_size: *rng.pick(&[0u64, 0, 4, 16]),
+        evict_pm: *rng.pick(&[0u32, 300, 700]),
     };
     let waiter_ms = if rng.chance(1, 4) {
         let run_ms = steps as u64 * cfg.tick_us / 1000;
@@ -799,7 +824,7 @@ impl Property for C01 {
                 _ => {}
             }
         }
-        let plain = FsCfg { sync_pct: 0, io_err_pct: 0, short_read_pct: 0, latency_us: None, page_cache: false };
+        let plain = FsCfg { sync_pct: 0, io_err_pct: 0, short_read_pct: 0, latency_us: None, page_cache: false, block_size: 0, evict_pm: 0 };
         out.push(Scenario { fs: plain, ..sc.clone() });
         let mut c = sc.clone();
         c.cfg.fail_rate_pm = 0;
